@@ -501,6 +501,12 @@ def emit_fn(root, d, log_all):
         else:
             head = head.replace(old, new)
         log.append({"rule": "R-site", "note": f"signature: `{old}` -> `{new}`"})
+    if d.get("plain"):
+        # Kani route: the signature is kept exactly as written (no named return, no `pub`)
+        ret = ""
+        if arrow is not None:
+            ret = " -> " + src[sig_toks[arrow + 1].start:sig_toks[end_k - 1].end]
+        vis = ""
     if d.get("sig"):
         # R10: a slice of a function gets the signature written in the template
         head, ret, wh = d["sig"], "", ""
@@ -687,6 +693,8 @@ def parse_template(path):
                 cur["attrs"].append(cmd[5:].strip())
             elif cmd.startswith("id "):
                 cur["emit_id"] = cmd[3:].strip()
+            elif cmd == "plain":
+                cur["plain"] = True
             elif cmd in ("r13", "r14"):
                 cur[cmd] = True
             elif cmd == "nopub":
